@@ -4,7 +4,7 @@
 # A seed that is no longer reported means a vacuity hole in the engine or a weakened contract. Run after every engine
 # change:  tools/mustfail.sh [seed ...]
 cd /verif
-PAIRS="C01:C01 C02:C01 C03:C03 C04:C04 C05:C05 C06:C06 C07:C07 C08:C08 C09:C09 C10:C10 C12:C12 C13:C13 C14:C14 C16:C16 C18:C18 C19:C19 C20:C20 C24:C24 C25:C25 C29:C29 C31:C31 C32:C32 C33:C33"
+PAIRS="C01:C01 C02:C01 C03:C03 C04:C04 C05:C05 C06:C06 C07:C07 C08:C08 C09:C09 C10:C10 C12:C12 C13:C13 C14:C14 C16:C16 C18:C18 C19:C19 C19b:C19 C20:C20 C24:C24 C25:C25 C25b:C25 C29:C29 C31:C31 C32:C32 C33:C33"
 [ $# -gt 0 ] && PAIRS=$(for s in "$@"; do for p in $PAIRS; do [ "${p%%:*}" = "$s" ] && echo $p; done; done)
 bad=0
 for p in $PAIRS; do
